@@ -151,6 +151,7 @@ fn foreign_operand_devs(xor: bool, p: usize, x: Fe, h: &Honest) -> Vec<Dev> {
 pub fn cases(tier: Tier) -> Vec<GCase> {
     let seed = seed();
     let mut out = vec![];
+    let mut tail: Vec<GCase> = vec![];
     // the composer's constant witnesses as operands (`xor(x, ZERO)` is the documented truncation idiom)
     for p in pair_counts(tier) {
         for (a, b) in [(neg1(), zero()), (zero(), fe(0xb5)), (one(), fe(0xb5)), (zero(), zero()), (one(), one())] {
@@ -160,7 +161,7 @@ pub fn cases(tier: Tier) -> Vec<GCase> {
                 c.dev_stride = if p <= 3 { 1 } else { 0 };
                 c.rewire = p <= 1;
                 c.confirm = p <= 3 || p == 127;
-                out.push(c);
+                tail.push(c);
             }
         }
     }
@@ -215,13 +216,17 @@ pub fn cases(tier: Tier) -> Vec<GCase> {
             }
         }
     }
+    out.extend(tail);
     out
 }
 
 pub fn main(tier: Tier, replay: Option<serde_json::Value>) -> i32 {
     let mut run = Run::new("C10", tier, "model_checking");
     run.rule = "cases = (AND|XOR, pair count, input pair); honest assignment + every bound-1 deviation of the gadget's allocations + the alias adversary per operand (all accumulators, products and outputs recomputed for the integer x + r together with the matching high part) re-run through the real generator and decided by M1; predicate: always satisfiable, every satisfying assignment returns AND/XOR of the low 2p bits of the canonical inputs".into();
-    let cs = cases(tier);
+    let mut cs = cases(tier);
+    if let Ok(f) = std::env::var("VERIF_ONLY") {
+        cs.retain(|c| c.g.name.contains(&f));
+    }
     let cache = ConfirmCache::new(crate::setup::pp(1 << 10));
     if let Some(r) = replay {
         return crate::gadget::replay(run, &cs, &cache, &r);
